@@ -20,6 +20,9 @@
 EXTENDS TraceKit, Sphere
 
 Deg9(u, v) == SameDirection(u, v, 1, 9)
+\* coarse agreement (1e-5 degree), enforced EVERYWHERE: next to a pole the asin() of the library only keeps 1e-7..1e-6
+\* degree (a known finding for the 1e-9 clauses), but a direction that is wrong by more than that is a different defect
+Deg5(u, v) == SameDirection(u, v, 1, 5)
 LatOK(x) == Le(Abs(x), FromInt(90))
 LonOK(x) == Ge(x, Zero) /\ Lt(x, FromInt(360))
 Delta9 == DivInt(Mul(Dec(1, 9), PiS), 180)          \* 1e-9 degree in radians
@@ -28,12 +31,16 @@ VerdictEcl ==
      Viol("WITNESS", IsUnit(Ev.u) /\ IsUnit(Ev.v) /\ IsUnit(Ev.w) /\ IsUnit(Ev.p) /\ IsUnit(Ev.q) /\ IsUnit(Ev.p2) /\ IsSC(Ev.ce, Ev.se))
 \cup Viol("ECLIPTICAL_IS_ROTATION", Deg9(Ev.v, RotX(Ev.u, Ev.ce, Ev.se)) /\ Deg9(Ev.q, RotXInv(Ev.p, Ev.ce, Ev.se)))
 \cup Viol("ECLIPTICAL_INVERSE", Deg9(Ev.w, Ev.u) /\ Deg9(Ev.p2, Ev.p))
+\cup Viol("ECLIPTICAL_COARSE", /\ Deg5(Ev.v, RotX(Ev.u, Ev.ce, Ev.se)) /\ Deg5(Ev.q, RotXInv(Ev.p, Ev.ce, Ev.se))
+                               /\ Deg5(Ev.w, Ev.u) /\ Deg5(Ev.p2, Ev.p))
 \cup Viol("ECLIPTICAL_RANGE", LonOK(Ev.lon) /\ LatOK(Ev.lat) /\ LonOK(Ev.lonq) /\ LatOK(Ev.latq))
 
 VerdictHor ==
      Viol("WITNESS", IsUnit(Ev.u) /\ IsUnit(Ev.v) /\ IsUnit(Ev.w) /\ IsUnit(Ev.p) /\ IsUnit(Ev.q) /\ IsUnit(Ev.p2) /\ IsSC(Ev.cphi, Ev.sphi))
 \cup Viol("HORIZONTAL_IS_ROTATION", Deg9(Ev.v, ToHorizon(Ev.u, Ev.sphi, Ev.cphi)) /\ Deg9(ToHorizon(Ev.q, Ev.sphi, Ev.cphi), Ev.p))
 \cup Viol("HORIZONTAL_INVERSE", Deg9(Ev.w, Ev.u) /\ Deg9(Ev.p2, Ev.p))
+\cup Viol("HORIZONTAL_COARSE", /\ Deg5(Ev.v, ToHorizon(Ev.u, Ev.sphi, Ev.cphi)) /\ Deg5(ToHorizon(Ev.q, Ev.sphi, Ev.cphi), Ev.p)
+                               /\ Deg5(Ev.w, Ev.u) /\ Deg5(Ev.p2, Ev.p))
 \cup Viol("HORIZONTAL_RANGE", LatOK(Ev.lat) /\ LatOK(Ev.latq))
 
 VerdictGal ==
@@ -50,6 +57,7 @@ VerdictGal ==
 \* ... and every direction is carried by that same rotation (angles between directions are unchanged)
 \cup Viol("GALACTIC_IS_ROTATION", Deg9(Ev.v, lin))
 \cup Viol("GALACTIC_INVERSE", Deg9(Ev.w, Ev.u))
+\cup Viol("GALACTIC_COARSE", Deg5(Ev.v, lin) /\ Deg5(Ev.w, Ev.u))
 \cup Viol("GALACTIC_POLE", Ge(Ev.pole[3], Sub(One, Dec(1, 12))))
 \cup Viol("GALACTIC_RANGE", LonOK(Ev.lon) /\ LatOK(Ev.lat) /\ LonOK(Ev.lonq) /\ LatOK(Ev.latq))
 
